@@ -10,6 +10,10 @@ MCJ_ColVals == [g |-> {NULL, 0, 1}, x |-> {NULL, 1}, y |-> {NULL, 1}]
 SIM_TabCols == [t1 |-> <<"g", "o", "x", "y">>, t2 |-> <<"g", "k", "y">>]
 SIM_ColVals == [g |-> {NULL, 0, 1}, o |-> {0, 1, 2, 3}, x |-> {NULL, 0, 1, 2}, y |-> {NULL, 0 - 1, 1, 3},
                 k |-> {NULL, 0, 1, 2}]
+NoBDev == {}
+BDevMergeCommon == {"merge_common_branch"}
+BDevSelectCollapse == {"select_collapse_unchecked"}
+BDevJoinCheck == {"join_check_dropped_after_order"}
 NoBackends == {}
 NoDevOf == [b \in {} |-> {}]
 AllBackends == {"pandas", "sqlite", "polars", "pg"}
